@@ -14,6 +14,12 @@ pub struct Violation {
     pub inv_index: usize,
 }
 
+/// Exit codes the simulator itself produces (deadlock, step bound, replay divergence, harness).
+/// Everything else — including 101, a panic on the main thread — is the program's own status.
+pub fn sim_reserved(status: i32) -> bool {
+    matches!(status, EXIT_DEADLOCK | EXIT_STEP_BOUND | EXIT_REPLAY_DIVERGED | EXIT_HARNESS)
+}
+
 /// Errors of the harness itself (never a property violation).
 pub fn harness_problem(run: &RunResult) -> Option<String> {
     match run.status {
@@ -52,8 +58,27 @@ pub fn liveness(property: &str, run: &RunResult, idx: usize) -> Vec<Violation> {
     v
 }
 
+/// Remove ANSI SGR sequences (`--color always`).
+pub fn strip_ansi(s: &str) -> String {
+    let mut out = String::with_capacity(s.len());
+    let mut it = s.chars().peekable();
+    while let Some(c) = it.next() {
+        if c == '\u{1b}' && it.peek() == Some(&'[') {
+            it.next();
+            for d in it.by_ref() {
+                if d.is_ascii_alphabetic() {
+                    break;
+                }
+            }
+        } else {
+            out.push(c);
+        }
+    }
+    out
+}
+
 pub fn has_error_record(stderr: &[u8]) -> bool {
-    let s = String::from_utf8_lossy(stderr);
+    let s = strip_ansi(&String::from_utf8_lossy(stderr));
     s.lines().any(|l| {
         l.starts_with("error:")
             || (l.starts_with('{') && l.contains("\"type\":\"error\""))
@@ -72,7 +97,7 @@ pub enum Reported {
 
 pub fn parse_reported(inv: &Invocation, world: &World, stdout: &[u8]) -> Reported {
     let fmt = inv.opts.output_format.as_deref().unwrap_or("standard").to_ascii_lowercase();
-    let text = String::from_utf8_lossy(stdout);
+    let text = strip_ansi(&String::from_utf8_lossy(stdout));
     let norm = |p: &str| -> String {
         if p == "stdin" {
             return "stdin".to_string();
@@ -406,7 +431,16 @@ pub fn tree_oracle(property: &str, prefix: &str, inv: &Invocation, ex: &Expected
                         idx,
                     ));
                 } else if !untouched {
-                    out.push(v(property, format!("{prefix}/unselected-file-touched"), p.clone(), idx));
+                    let kf = if ex.selection.kf7_candidates.contains(p) {
+                        "/user-glob-whitelist-overrides-ignore-or-hidden"
+                    } else if ex.selection.kf8_candidates.contains(p) {
+                        "/respect-ignores-explicit-path-non-nearest-ignore-file"
+                    } else if ex.selection.kf9_candidates.contains(p) {
+                        "/slash-pattern-in-ignore-file-above-directory-argument"
+                    } else {
+                        ""
+                    };
+                    out.push(v(property, format!("{prefix}/unselected-file-touched{kf}"), p.clone(), idx));
                 }
             }
             Some(FileExpect::Fail(r)) | Some(FileExpect::ConfigError(r)) => {
@@ -604,7 +638,7 @@ pub fn selection_oracle(property: &str, inv: &Invocation, world: &World, ex: &Ex
 
 /// C19 (b): an error that was reported is never masked — the status is 2.
 pub fn masking_oracle(property: &str, inv: &Invocation, run: &RunResult, idx: usize) -> Vec<Violation> {
-    if has_error_record(&run.stderr) && run.status != 2 && run.status < 90 {
+    if has_error_record(&run.stderr) && run.status != 2 && !sim_reserved(run.status) {
         return vec![v(
             property,
             format!("masking/error-reported-but-status-{}/fmt-{}", run.status, fmt_name(inv)),
